@@ -7,7 +7,7 @@ ROOT=$(cd "$(dirname "$0")" && pwd)
 ID=${1:?property id}
 TIER=${2:-${VERIF_TIER:-quick}}
 export CARGO_NET_OFFLINE=true
-export VERIF_ROOT="$ROOT"
+export VERIF_ROOT="${VERIF_ROOT_OVERRIDE:-$ROOT}"
 cd "$ROOT/harness" || exit 2
 exec 9>"$ROOT/harness/.build.lock"
 flock 9
